@@ -411,11 +411,27 @@ theorem segLoop_stop_fresh (fuel : Nat) (idents : List Str) (s : PState) (hn : s
   rw [segLoop, P.run_bind _ _ _ _ _ (pscan_fresh s hn hb), P.run_ite, if_pos hd,
     P.run_bind _ _ _ _ _ (RT.unscan_run' _), P.run_pure]
 
-/-- **One source.** `parseSource` (no subqueries) on a blank and a printed measurement name
-returns that measurement; the token after the name stays pushed back. -/
-theorem parseSource_name (s : PState) (n rest : Str) (hex : Expressible n) (hrest : RT.SepU rest)
-    (hs : s.Before (' ' :: (qi n ++ rest))) :
-    ∃ s', (parseSourceWith none).run s = .ok (nameSrc n, s') ∧ RT.At s' rest := by
+/-- `parseSegmentedIdents` when `ParseIdent` reads the single name and no `.` follows. -/
+theorem segmented_single (s2 s3 : PState) (n rest : Str) (h3 : parseIdent.run s2 = .ok (n, s3)) (b3 : s3.Before rest)
+    (hrest : RT.SepU rest) :
+    ∃ s4, parseSegmentedIdents.run s2 = .ok ([n], s4) ∧ RT.At s4 rest ∧ s4.n > 0 := by
+  have htok := RT.scan_sep_tok s3.r rest b3.2 hrest
+  have hnb : (scan s3.r).1.tok ≠ .BOUNDPARAM := by rcases htok with h | h | h | h <;> rw [h] <;> decide
+  have hnd : (scan s3.r).1.tok ≠ .DOT := by rcases htok with h | h | h | h <;> rw [h] <;> decide
+  refine ⟨unsc { s3 with r := (scan s3.r).2, buf := ((scan s3.r).1 :: s3.buf).take 3 }, ?_,
+    ⟨s3.r, Or.inr ⟨by simp [unsc, b3.1], by simp [unsc], rfl⟩, b3.2⟩, by simp [unsc]⟩
+  unfold parseSegmentedIdents
+  rw [P.run_bind _ _ _ _ _ h3, P.run_bind _ _ _ _ _ (P.run_get s3)]
+  rw [show s3.n + s3.r.rest.length + 2 = (s3.n + s3.r.rest.length + 1) + 1 from rfl,
+    P.run_bind _ _ _ _ _ (segLoop_stop_fresh _ [n] s3 b3.1 hnb hnd)]
+  simp
+  rfl
+
+/-- **One source.** `parseSource` (with or without subqueries allowed) on a blank and a printed
+measurement name returns that measurement; the token after the name stays pushed back. -/
+theorem parseSource_name (sub : Option (P SelectStmt)) (s : PState) (n rest : Str) (hex : Expressible n)
+    (hrest : RT.SepU rest) (hs : s.Before (' ' :: (qi n ++ rest))) :
+    ∃ s', (parseSourceWith sub).run s = .ok (nameSrc n, s') ∧ RT.At s' rest := by
   have hch : s.r.chars = ' ' :: (qi n ++ rest) := hs.2.chars_of_cons (by decide)
   have hnrs : RT.NoRegexStart (qi n ++ rest) := by
     have := (RT.atom_start (x := false) (.varRef n .Unknown) (by rw [RT.rtOK]; simp [exprB_of_expressible hex])
@@ -423,28 +439,41 @@ theorem parseSource_name (s : PState) (n rest : Str) (hex : Expressible n) (hres
     simpa [RT.print_varRef, qi] using this
   obtain ⟨s2, hr2, hn2, hch2, _⟩ := RT.parseRegex_none s (qi n ++ rest) hs.1 hnrs (Or.inr hch)
   have hb2 : s2.Before (qi n ++ rest) := ⟨hn2, Or.inl hch2⟩
-  obtain ⟨s3, h3, b3⟩ := parseIdent_piece s2 [] (qi n) rest n Gap.none (by simpa using hb2.around)
-    (scansAs_ident n rest hex (.of_wordEnd (sepU_tokEnd hrest).1))
-  have htok := RT.scan_sep_tok s3.r rest b3.2 hrest
-  have hnb : (scan s3.r).1.tok ≠ .BOUNDPARAM := by rcases htok with h | h | h | h <;> rw [h] <;> decide
-  have hnd : (scan s3.r).1.tok ≠ .DOT := by rcases htok with h | h | h | h <;> rw [h] <;> decide
-  refine ⟨unsc { s3 with r := (scan s3.r).2, buf := ((scan s3.r).1 :: s3.buf).take 3 }, ?_,
-    ⟨s3.r, Or.inr ⟨by simp [unsc, b3.1], by simp [unsc], rfl⟩, b3.2⟩⟩
-  have hseg : parseSegmentedIdents.run s2 =
-      .ok ([n], unsc { s3 with r := (scan s3.r).2, buf := ((scan s3.r).1 :: s3.buf).take 3 }) := by
-    unfold parseSegmentedIdents
-    rw [P.run_bind _ _ _ _ _ h3, P.run_bind _ _ _ _ _ (P.run_get s3)]
-    rw [show s3.n + s3.r.rest.length + 2 = (s3.n + s3.r.rest.length + 1) + 1 from rfl,
-      P.run_bind _ _ _ _ _ (segLoop_stop_fresh _ [n] s3 b3.1 hnb hnd)]
-    simp
+  have hsc := scansAs_ident n rest hex (.of_wordEnd (sepU_tokEnd hrest).1)
+  cases sub with
+  | none =>
+    obtain ⟨s3, h3, b3⟩ := parseIdent_piece s2 [] (qi n) rest n Gap.none (by simpa using hb2.around) hsc
+    obtain ⟨s4, h4, a4, n4⟩ := segmented_single s2 s3 n rest h3 b3 hrest
+    refine ⟨s4, ?_, a4⟩
+    unfold parseSourceWith
+    rw [P.run_bind _ _ _ _ _ hr2]
+    simp only [pure_bind]
+    rw [P.run_bind _ _ _ _ _ h4]
+    simp only []
+    rw [P.run_bind _ _ _ _ _ (parseRegex_pushed _ n4)]
     rfl
-  unfold parseSourceWith
-  rw [P.run_bind _ _ _ _ _ hr2]
-  simp only [pure_bind]
-  rw [P.run_bind _ _ _ _ _ hseg]
-  simp only []
-  rw [P.run_bind _ _ _ _ _ (parseRegex_pushed _ (by simp [unsc]))]
-  rfl
+  | some parseSub =>
+    obtain ⟨lx, s3, h3, t3, l3, b3⟩ := scanIW_piece s2 [] (qi n) rest .IDENT n Gap.none (by simpa using hb2.around) hsc
+    have hid : parseIdent.run (unsc s3) = .ok (n, s3) := by
+      have hrd : scanIW.run (unsc s3) = .ok (lx, s3) := scanIW_redeliver s2 lx s3 h3
+      unfold parseIdent
+      rw [P.run_bind _ _ _ _ _ hrd]
+      simp [t3, l3, StateT.run, pure, StateT.pure, Except.pure]
+    obtain ⟨s4, h4, a4, n4⟩ := segmented_single (unsc s3) s3 n rest hid b3 hrest
+    refine ⟨s4, ?_, a4⟩
+    unfold parseSourceWith
+    rw [P.run_bind _ _ _ _ _ hr2]
+    simp only []
+    have hnl : ¬ lx.tok = .LPAREN := by rw [t3]; decide
+    have hun : unscan.run s3 = .ok ((), unsc s3) := unscan_run s3
+    rw [P.run_bind _ _ _ _ _ h3]
+    simp only [hnl, if_false]
+    rw [P.run_bind _ _ _ _ _ hun]
+    simp only [pure_bind]
+    rw [P.run_bind _ _ _ _ _ h4]
+    simp only []
+    rw [P.run_bind _ _ _ _ _ (parseRegex_pushed _ n4)]
+    rfl
 
 theorem length_moreNames (names : List Str) : names.length ≤ (moreNames names).length := by
   induction names with
@@ -452,15 +481,16 @@ theorem length_moreNames (names : List Str) : names.length ≤ (moreNames names)
   | cons n rest ih => simp only [moreNames, List.length_cons, List.length_append]; omega
 
 /-- The loop of `parseSources` on printed names. -/
-theorem sourcesLoop_names (names : List Str) : ∀ (it : Nat) (acc : List Source) (s : PState) (n k : Str),
+theorem sourcesLoop_names (sub : Option (P SelectStmt)) (names : List Str) :
+    ∀ (it : Nat) (acc : List Source) (s : PState) (n k : Str),
     names.length < it → (∀ m ∈ n :: names, Expressible m) → Follow k [.COMMA] →
     s.Before (' ' :: (qi n ++ (moreNames names ++ k))) →
-    ∃ s', (sourcesLoop none it acc).run s = .ok (acc ++ (n :: names).map nameSrc, s') ∧ RT.Stand s' k := by
+    ∃ s', (sourcesLoop sub it acc).run s = .ok (acc ++ (n :: names).map nameSrc, s') ∧ RT.Stand s' k := by
   induction names with
   | nil =>
     intro it acc s n k hit hex hk hs
     obtain ⟨it', rfl⟩ : ∃ it', it = it' + 1 := ⟨it - 1, by simp at hit; omega⟩
-    obtain ⟨s1, h1, a1⟩ := parseSource_name s n k (hex n (by simp)) hk.1 (by simpa [moreNames] using hs)
+    obtain ⟨s1, h1, a1⟩ := parseSource_name sub s n k (hex n (by simp)) hk.1 (by simpa [moreNames] using hs)
     obtain ⟨T, hT, hne⟩ := hk.starts (t := .COMMA) (by simp)
     obtain ⟨lx, s2, h2, t2, st2, _⟩ := RT.scanIW_starts s1 k T (Or.inl a1) hT
     refine ⟨unsc s2, ?_, st2⟩
@@ -472,7 +502,7 @@ theorem sourcesLoop_names (names : List Str) : ∀ (it : Nat) (acc : List Source
     intro it acc s n k hit hex hk hs
     obtain ⟨it', rfl⟩ : ∃ it', it = it' + 1 := ⟨it - 1, by simp at hit; omega⟩
     have hrest : RT.SepU (',' :: ' ' :: (qi m ++ (moreNames names ++ k))) := Or.inl (Or.inr ⟨_, Or.inr rfl⟩)
-    obtain ⟨s1, h1, a1⟩ := parseSource_name s n _ (hex n (by simp)) hrest
+    obtain ⟨s1, h1, a1⟩ := parseSource_name sub s n _ (hex n (by simp)) hrest
       (by simpa [moreNames, List.append_assoc] using hs)
     obtain ⟨lx, s2, h2, t2, _, b2⟩ := scanIW_stand s1 [] [','] (' ' :: (qi m ++ (moreNames names ++ k))) .COMMA []
       Gap.none (Or.inl (by simpa using a1)) (scansAs_comma _)
@@ -485,10 +515,10 @@ theorem sourcesLoop_names (names : List Str) : ∀ (it : Nat) (acc : List Source
     simp
 
 /-- **`parseSources`** on a blank and the printed list of plain measurement names. -/
-theorem parseSources_names (s : PState) (n : Str) (names : List Str) (k : Str)
+theorem parseSourcesWith_names (sub : Option (P SelectStmt)) (s : PState) (n : Str) (names : List Str) (k : Str)
     (hex : ∀ m ∈ n :: names, Expressible m) (hk : Follow k [.COMMA])
     (hs : s.Before (' ' :: (qi n ++ (moreNames names ++ k)))) :
-    ∃ s', parseSources.run s = .ok ((n :: names).map nameSrc, s') ∧ RT.Stand s' k := by
+    ∃ s', (parseSourcesWith sub).run s = .ok ((n :: names).map nameSrc, s') ∧ RT.Stand s' k := by
   have hch : s.r.chars = ' ' :: (qi n ++ (moreNames names ++ k)) := hs.2.chars_of_cons (by decide)
   have hlen : names.length < s.n + s.r.rest.length + 2 := by
     have h1 := length_moreNames names
@@ -497,13 +527,19 @@ theorem parseSources_names (s : PState) (n : Str) (names : List Str) (k : Str)
     rw [h2]
     simp only [List.length_cons, List.length_append]
     omega
-  obtain ⟨s', h, st⟩ := sourcesLoop_names names _ [] s n k hlen hex hk hs
+  obtain ⟨s', h, st⟩ := sourcesLoop_names sub names _ [] s n k hlen hex hk hs
   refine ⟨s', ?_, st⟩
-  unfold parseSources parseSourcesWith loopFuel
+  unfold parseSourcesWith loopFuel
   have hf : loopFuel.run s = .ok (s.n + s.r.rest.length + 2, s) := rfl
   unfold loopFuel at hf
   rw [P.run_bind _ _ _ _ _ hf]
   simpa using h
+
+theorem parseSources_names (s : PState) (n : Str) (names : List Str) (k : Str)
+    (hex : ∀ m ∈ n :: names, Expressible m) (hk : Follow k [.COMMA])
+    (hs : s.Before (' ' :: (qi n ++ (moreNames names ++ k)))) :
+    ∃ s', parseSources.run s = .ok ((n :: names).map nameSrc, s') ∧ RT.Stand s' k :=
+  parseSourcesWith_names none s n names k hex hk hs
 
 /-- ` FROM <names>` when there are sources. -/
 def fromText : List Str → Str
@@ -610,5 +646,209 @@ theorem parseTarget_absent (s : PState) (k : Str) (hk : Follow k [.INTO]) (hs : 
   simp only [Bool.false_eq_true, if_false]
   rw [P.run_bind _ _ _ _ _ (unscan_run s1)]
   rfl
+
+/-! ## fields of SELECT -/
+
+theorem Follow.comma (more : Str) (stop : List Token) (h : Token.COMMA ∉ stop) : Follow (',' :: more) stop := by
+  obtain ⟨h1, T, h2, h3⟩ := RT.ExprEnd.of_sepC (k := ',' :: more) (Or.inr ⟨more, Or.inr rfl⟩)
+  have hT : T = .COMMA := by
+    have hc : RT.Starts (',' :: more) .COMMA := by
+      have := starts_piece [] [','] more .COMMA [] Gap.none (scansAs_comma more)
+      simpa using this
+    exact starts_unique h2 hc
+  subst hT
+  exact ⟨h1, .COMMA, h2, h3, h⟩
+
+/-- ` AS <alias>` when there is an alias. -/
+def aliasText (a : Str) : Str := if a = [] then [] else ' ' :: (Token.AS.str ++ ' ' :: qi a)
+
+theorem kwText_alias (a : Str) : KwText (aliasText a) .AS := by
+  unfold aliasText; split
+  · exact Or.inl rfl
+  · exact Or.inr ⟨_, rfl⟩
+
+theorem field_print_eq (f : Field) : f.print = f.expr.print ++ aliasText f.alias := by
+  have e1 : " AS ".toList = ' ' :: (Token.AS.str ++ [' ']) := by decide +kernel
+  unfold Field.print aliasText
+  split
+  · simp
+  · rw [e1]; simp [qi]
+
+/-- The fields the round trip is proved for: a printable expression (C03's class) without an
+operator that `parseField` rejects, and any alias. -/
+def FieldOK (f : Field) : Prop := RT.rtOK false f.expr = true ∧ f.expr.badOps = [] ∧ Expressible f.alias
+
+instance (f : Field) : Decidable (FieldOK f) := by unfold FieldOK; exact inferInstance
+
+/-- How `parseField` leaves the parser: it has looked at the first token of `rest` and pushed it back. -/
+def FieldEnd (s' : PState) (rest : Str) : Prop :=
+  ∃ lx s1 r1, s' = unsc s1 ∧ RT.Just s1 lx r1 ∧ lx.tok ≠ .BOUNDPARAM ∧ RT.Stand s' rest ∧
+    (∀ more, rest = ',' :: more → lx.tok = .COMMA ∧ s1.Before more) ∧
+    ((∀ more, rest ≠ ',' :: more) → lx.tok ≠ .COMMA)
+
+/-- **One field.** `parseField` on a blank and the printed field. -/
+theorem parseField_print (fuel : Nat) (s : PState) (f : Field) (rest : Str) (hf : FieldOK f)
+    (hrest : (∃ more, rest = ',' :: more) ∨ Follow rest [.AS, .COMMA])
+    (hs : s.Before (' ' :: (f.print ++ rest))) :
+    wp (parseField fuel) s (fun f' s' => f' = f ∧ FieldEnd s' rest) (· = .fuel) := by
+  obtain ⟨he, hbad, hal⟩ := hf
+  have hfr : Follow rest [.AS] := by
+    rcases hrest with ⟨more, rfl⟩ | h
+    · exact Follow.comma more _ (by decide)
+    · exact h.mono (by decide)
+  have hfa : Follow (aliasText f.alias ++ rest) [] :=
+    Follow.opt (kwText_alias _) (by decide +kernel) rfl (by simp) (hfr.mono (by simp))
+  rw [field_print_eq, List.append_assoc] at hs
+  have hch : s.r.chars = ' ' :: (f.expr.print ++ (aliasText f.alias ++ rest)) := hs.2.chars_of_cons (by decide)
+  obtain ⟨hnrs, hsig⟩ := RT.expr_sig (x := false) f.expr he _ hfa.1
+  obtain ⟨s2, hr2, hn2, hch2, _⟩ := RT.parseRegex_none s _ hs.1 hnrs (Or.inr hch)
+  obtain ⟨_, hb2, hw2, hc2⟩ := hsig s2.r hch2
+  obtain ⟨s3, hr3, hj3, _⟩ := RT.scanIW_look s2 s2.r (Or.inl ⟨hn2, rfl⟩) hb2 hw2 hc2
+  have hat : RT.AtW (unsc s3) (f.expr.print ++ (aliasText f.alias ++ rest)) :=
+    ⟨s2.r, RT.look_unsc s3 s2.r hj3, Or.inl hch2⟩
+  unfold parseField
+  rw [wp_bind, wp_of_run_ok hr2]
+  simp only []
+  rw [wp_bind, wp_of_run_ok hr3, wp_bind, unscan_wp, wp_bind]
+  refine wp_mono (RT.specE'_all false fuel (unsc s3) f.expr _ (fun h => by cases h) he hfa.exprEnd hat) ?_ (fun _ h => h)
+  intro e' s4 ⟨he', st4, _⟩
+  subst he'
+  simp only [hbad, List.getLast?_nil, pure_bind]
+  -- the alias
+  have halias : ∃ s5, parseAlias.run s4 = .ok (f.alias, s5) ∧ RT.Stand s5 rest := by
+    unfold aliasText at st4
+    by_cases ha : f.alias = []
+    · rw [if_pos ha] at st4
+      obtain ⟨lx, s5, h5, t5, st5⟩ := peek_stand s4 rest _ .AS hfr (by simp) (by simpa using st4)
+      refine ⟨unsc s5, ?_, st5⟩
+      unfold parseAlias
+      rw [P.run_bind _ _ _ _ _ h5, P.run_ite, if_pos t5, P.run_bind _ _ _ _ _ (unscan_run s5), ha]
+      rfl
+    · rw [if_neg ha] at st4
+      have st4' : RT.Stand s4 ([' '] ++ (Token.AS.str ++ (' ' :: (qi f.alias ++ rest)))) := by simpa using st4
+      obtain ⟨lx, s5, h5, t5, _, b5⟩ := scanIW_stand s4 [' '] Token.AS.str _ .AS [] Gap.blank st4'
+        (scansAs_kw .AS _ (by decide +kernel) (WordEnd.blank _))
+      obtain ⟨s6, h6, b6⟩ := parseIdent_piece s5 [' '] (qi f.alias) rest f.alias Gap.blank b5.around
+        (scansAs_ident f.alias rest hal (.of_wordEnd hfr.tokEnd.1))
+      refine ⟨s6, ?_, b6.stand⟩
+      unfold parseAlias
+      have : ¬ lx.tok ≠ .AS := by rw [t5]; simp
+      rw [P.run_bind _ _ _ _ _ h5, P.run_ite, if_neg this]
+      exact h6
+  obtain ⟨s5, h5, st5⟩ := halias
+  rw [wp_bind, wp_of_run_ok h5, wp_bind]
+  -- the look-ahead after the alias
+  rcases hrest with ⟨more, rfl⟩ | hfc
+  · have hstc : RT.Starts (',' :: more) .COMMA := by
+      have := starts_piece [] [','] more .COMMA [] Gap.none (scansAs_comma more)
+      simpa using this
+    obtain ⟨lx, s6, r6, h6, t6, st6, j6⟩ := RT.scanIW_starts_just s5 _ .COMMA st5 hstc
+    -- the state after the comma
+    obtain ⟨lx', s6', h6', _, _, b6'⟩ := scanIW_stand s5 [] [','] more .COMMA [] Gap.none (by simpa using st5)
+      (scansAs_comma more)
+    rw [h6] at h6'
+    injection h6' with h6'
+    injection h6' with _ hs6
+    subst hs6
+    rw [wp_of_run_ok h6, wp_bind, unscan_wp, wp_pure]
+    refine ⟨rfl, lx, s6, r6, rfl, j6, by rw [t6]; decide, st6, ?_, ?_⟩
+    · intro more' e
+      simp only [List.cons.injEq, true_and] at e
+      subst e
+      exact ⟨t6, b6'⟩
+    · intro h; exact absurd rfl (h more)
+  · obtain ⟨T, hT, hne⟩ := hfc.starts (t := .COMMA) (by simp)
+    obtain ⟨lx, s6, r6, h6, t6, st6, j6⟩ := RT.scanIW_starts_just s5 _ T st5 hT
+    rw [wp_of_run_ok h6, wp_bind, unscan_wp, wp_pure]
+    refine ⟨rfl, lx, s6, r6, rfl, j6, by rw [t6]; exact hT.1.1, st6, ?_, ?_⟩
+    · intro more e
+      exfalso
+      subst e
+      have hstc : RT.Starts (',' :: more) .COMMA := by
+        have := starts_piece [] [','] more .COMMA [] Gap.none (scansAs_comma more)
+        simpa using this
+      exact hne (starts_unique hT hstc)
+    · intro _; rw [t6]; exact hne
+
+/-- What `Fields.String()` writes after a field. -/
+def moreFields : List Field → Str
+  | [] => []
+  | f :: rest => ',' :: ' ' :: (f.print ++ moreFields rest)
+
+theorem joinFields (f : Field) (fs : List Field) :
+    joinWith (tx ", ") ((f :: fs).map Field.print) = f.print ++ moreFields fs := by
+  induction fs generalizing f with
+  | nil => simp [joinWith, moreFields]
+  | cons g fs ih =>
+    have e : joinWith (tx ", ") ((f :: g :: fs).map Field.print) =
+        f.print ++ tx ", " ++ joinWith (tx ", ") ((g :: fs).map Field.print) := rfl
+    rw [e, ih g]
+    simp [moreFields, tx]
+
+theorem length_moreFields (fs : List Field) : fs.length ≤ (moreFields fs).length := by
+  induction fs with
+  | nil => exact Nat.le_refl _
+  | cons f rest ih => simp only [moreFields, List.length_cons, List.length_append]; omega
+
+/-- The loop of `parseFields` on the printed fields. -/
+theorem fieldsLoop_print (fuel : Nat) (fields : List Field) : ∀ (it : Nat) (acc : List Field) (s : PState) (f : Field)
+    (k : Str), fields.length < it → (∀ g ∈ f :: fields, FieldOK g) → Follow k [.AS, .COMMA] →
+    s.Before (' ' :: (f.print ++ (moreFields fields ++ k))) →
+    wp (fieldsLoop fuel it acc) s (fun r s' => r = acc ++ f :: fields ∧ RT.Stand s' k) (· = .fuel) := by
+  induction fields with
+  | nil =>
+    intro it acc s f k hit hok hk hs
+    obtain ⟨it', rfl⟩ : ∃ it', it = it' + 1 := ⟨it - 1, by simp at hit; omega⟩
+    rw [fieldsLoop, wp_bind]
+    refine wp_mono (parseField_print fuel s f k (hok f (by simp)) (Or.inr hk) (by simpa [moreFields] using hs)) ?_
+      (fun _ h => h)
+    intro f' s' ⟨hf', lx, s1, r1, hs', j1, hnb, st, _, hnc⟩
+    subst hs'
+    have hnotc : ∀ more, k ≠ ',' :: more := by
+      intro more e
+      subst e
+      obtain ⟨T, hT, hne⟩ := hk.starts (t := .COMMA) (by simp)
+      have hstc : RT.Starts (',' :: more) .COMMA := by
+        have := starts_piece [] [','] more .COMMA [] Gap.none (scansAs_comma more)
+        simpa using this
+      exact hne (starts_unique hT hstc)
+    rw [wp_bind, wp_of_run_ok (RT.pscan_redeliver s1 lx r1 j1 hnb), wp_ite, if_pos (hnc hnotc), wp_bind, unscan_wp,
+      wp_pure]
+    exact ⟨by rw [hf'], st⟩
+  | cons g fields ih =>
+    intro it acc s f k hit hok hk hs
+    obtain ⟨it', rfl⟩ : ∃ it', it = it' + 1 := ⟨it - 1, by simp at hit; omega⟩
+    rw [fieldsLoop, wp_bind]
+    refine wp_mono (parseField_print fuel s f (',' :: ' ' :: (g.print ++ (moreFields fields ++ k))) (hok f (by simp))
+      (Or.inl ⟨_, rfl⟩) (by simpa [moreFields, List.append_assoc] using hs)) ?_ (fun _ h => h)
+    intro f' s' ⟨hf', lx, s1, r1, hs', j1, hnb, _, hc, _⟩
+    subst hs'
+    obtain ⟨tc, b1⟩ := hc _ rfl
+    have : ¬ lx.tok ≠ .COMMA := by rw [tc]; simp
+    rw [wp_bind, wp_of_run_ok (RT.pscan_redeliver s1 lx r1 j1 hnb), wp_ite, if_neg this, hf']
+    refine wp_mono (ih it' (acc ++ [f]) s1 g k (by simp at hit ⊢; omega)
+      (fun x hx => hok x (by simp at hx ⊢; exact Or.inr hx)) hk b1) ?_ (fun _ h => h)
+    intro r s2 ⟨hr, st⟩
+    exact ⟨by rw [hr]; simp, st⟩
+
+/-- **`parseFields`** on a blank and the printed field list. -/
+theorem parseFields_print (fuel : Nat) (s : PState) (f : Field) (fields : List Field) (k : Str)
+    (hok : ∀ g ∈ f :: fields, FieldOK g) (hk : Follow k [.AS, .COMMA])
+    (hs : s.Before (' ' :: (f.print ++ (moreFields fields ++ k)))) :
+    wp (parseFields fuel) s (fun r s' => r = f :: fields ∧ RT.Stand s' k) (· = .fuel) := by
+  have hch : s.r.chars = ' ' :: (f.print ++ (moreFields fields ++ k)) := hs.2.chars_of_cons (by decide)
+  have hlen : fields.length < s.n + s.r.rest.length + 2 := by
+    have h1 := length_moreFields fields
+    have h2 : s.r.rest.length = (' ' :: (f.print ++ (moreFields fields ++ k))).length := by
+      rw [← hch]; simp [Cursor.chars]
+    rw [h2]
+    simp only [List.length_cons, List.length_append]
+    omega
+  have hf : loopFuel.run s = .ok (s.n + s.r.rest.length + 2, s) := rfl
+  unfold parseFields
+  rw [wp_bind, wp_of_run_ok hf]
+  refine wp_mono (fieldsLoop_print fuel fields _ [] s f k hlen hok hk hs) ?_ (fun _ h => h)
+  intro r s' ⟨hr, st⟩
+  exact ⟨by simpa using hr, st⟩
 
 end InfluxQL
